@@ -507,7 +507,7 @@ func (g *TreeGen) commentText() string {
 		}
 		return t
 	default:
-		return pick(r, []string{"a comment", "TODO", "unicode: 世界", "quote \" and ` and '", "braces { } ( ) [ ]"})
+		return pick(r, []string{"a comment", "TODO", "unicode: 世界", "quote \" and ` and '", "braces { } ( ) [ ]", "100% done", "50%d of %s", "%", "ends in %"})
 	}
 }
 
@@ -978,11 +978,29 @@ func genFileSetup(r *Rng, f int, pool *PathPool, cfg FileCfg) []Op {
 	}
 	if r.Chance(cfg.commentPct) {
 		g := &TreeGen{r: r}
+		// several header / package comments per File, among them the empty text (the usual way
+		// to write a paragraph break inside a multi-paragraph comment) and blank-only texts
+		text := func() string {
+			switch r.Intn(8) {
+			case 0:
+				return ""
+			case 1:
+				return pick(r, []string{" ", "\t", "."})
+			}
+			return g.commentText()
+		}
+		nh, np := 0, 0
 		if r.Bool() {
-			ops = append(ops, Op{Kind: OpHeader, F: f, Str: []string{g.commentText()}})
+			nh = 1 + r.Intn(3)*r.Intn(2)
 		}
 		if r.Bool() {
-			ops = append(ops, Op{Kind: OpPkgComment, F: f, Str: []string{g.commentText()}})
+			np = 1 + r.Intn(3)*r.Intn(2)
+		}
+		for j := 0; j < nh; j++ {
+			ops = append(ops, Op{Kind: OpHeader, F: f, Str: []string{text()}})
+		}
+		for j := 0; j < np; j++ {
+			ops = append(ops, Op{Kind: OpPkgComment, F: f, Str: []string{text()}})
 		}
 	}
 	return append(lowerOps(all), ops...)
